@@ -415,3 +415,60 @@ def c03_same_data(obs, ref_docs):
         if (ra["stop"] or {}).get("exit_status") != (rb["stop"] or {}).get("exit_status"):
             tags.append("exit-status-differs-from-uninterrupted-execution")
     return sorted(set(tags))
+
+
+# ------------------------------------------------------------------------------------------------ numbering (C05 / C40)
+def _stream_kind(name, rec):
+    if name == "interruptions":
+        return "interruptions"
+    if name and name.endswith("_monitor"):
+        return "monitor"
+    return "bundle"
+
+
+def c05_numbering(obs, case=None):
+    tags = []
+    if obs.state != "idle" or obs.stuck:
+        return tags
+    rewinds = [nd for nd, _ in obs.rewinds]
+    runs, _ = group_runs(obs.docs)
+    for rec in event_table(obs.docs):
+        stop = rec["stop"]
+        if stop is None:
+            continue
+        ne = stop.get("num_events", {})
+        items = runs[rec["uid"]]
+        # events produced by a replayed 'collect' message are re-taken data like bundle events; stream datums are checked separately below
+        paged = {rec["names"].get(d["descriptor"]) for _, n, d in items if n == "stream_datum"}
+        sd = defaultdict(list)
+        for i, n, d in items:
+            if n == "stream_datum":
+                sd[rec["names"].get(d["descriptor"])].append((d["seq_nums"]["start"], d["seq_nums"]["stop"], d["indices"]["start"], d["indices"]["stop"]))
+        for s, em in rec["emitted"].items():
+            nums = [sn for _, sn in em]
+            N = ne.get(s, 0)
+            if sorted(set(nums)) != list(range(1, N + 1)):
+                tags.append(f"seq_nums-are-not-1..num_events:{_stream_kind(s, rec) if s not in paged else 'collect'}")
+            kind = "collect" if s in paged else _stream_kind(s, rec)
+            seen = {}
+            for i, sn in em:
+                if sn in seen:
+                    if kind != "bundle":
+                        tags.append(f"seq_num-repeated-in-{kind}-stream")
+                    elif not any(seen[sn] < r <= i + 1 for r in rewinds):
+                        tags.append("seq_num-repeated-without-a-rewind-in-between")
+                seen[sn] = i
+        for s in ne:
+            if s not in rec["emitted"] and s not in sd and ne[s] != 0:
+                tags.append("num_events-counts-a-stream-without-events")
+        for s, ranges in sd.items():
+            nxt = 1
+            for a, b, ia, ib in ranges:
+                if a != nxt:
+                    tags.append("stream-datum-seq_nums-not-contiguous")
+                if b - a != ib - ia:
+                    tags.append("stream-datum-seq_nums-and-indices-differ-in-length")
+                nxt = b
+            if s not in rec["emitted"] and ne.get(s, 0) != nxt - 1:
+                tags.append("num_events-differs-from-stream-datum-coverage")
+    return sorted(set(tags))
